@@ -8,5 +8,7 @@ open AgdbSearch
 #print axioms C14_complete
 #print axioms C14_exact
 #print axioms C14_terminates
+#print axioms C14_graph_exact
+#print axioms C14_graph_terminates
 #print axioms C14_edge_origin_counterexample
 #print axioms C14_edge_origin_unreachable
